@@ -17,7 +17,7 @@ Open Scope Z_scope.
    assignment exactly when F is satisfied by the induced assignment *)
 Theorem C05_composes_meaning : forall r nv F dec,
   composes r nv F dec <->
-  exists out, r = SOk (nv, out) /\ lits_in_range nv out = true /\
+  exists out, r = TOk (nv, out) /\ lits_in_range nv out = true /\
               forall a, cnf_sat a out = cnf_sat (dec a) F.
 Proof. exact (fun r nv F dec => iff_refl _). Qed.
 Print Assumptions C05_composes_meaning.
@@ -118,7 +118,7 @@ Print Assumptions C05_if_then_else.
 (* lifting: 2k variables per original variable; satisfied exactly when every
    variable has exactly one selector true and F holds on the selected copies *)
 Theorem C05_lifting : forall N k F, 1 <= k -> 0 <= N -> lits_in_range N F = true ->
-  exists out, formula_lifting N k F = SOk (2 * k * N, out) /\
+  exists out, formula_lifting N k F = TOk (2 * k * N, out) /\
               lits_in_range (2 * k * N) out = true /\
               forall a, cnf_sat a out = selectors_ok N k a && cnf_sat (dec_lift k a) F.
 Proof. exact formula_lifting_correct. Qed.
@@ -150,12 +150,12 @@ Print Assumptions C05_compression_maj.
 
 (* invalid arguments are rejected (ValueError) *)
 Theorem C05_arity_rejected : forall N k F g, k < 1 ->
-  block_subst N k F g = SValueErr /\ formula_lifting N k F = SValueErr.
+  block_subst N k F g = TValueErr /\ formula_lifting N k F = TValueErr.
 Proof. exact (fun N k F g H => conj (block_subst_rejects N k F g H) (formula_lifting_rejects N k F H)). Qed.
 Print Assumptions C05_arity_rejected.
 
 Theorem C05_compression_rejected : forall N F R adj fn,
-  len adj <> N \/ fn = CompOther -> variable_compression N F R adj fn = SValueErr.
+  len adj <> N \/ fn = CompOther -> variable_compression N F R adj fn = TValueErr.
 Proof. exact variable_compression_rejects. Qed.
 Print Assumptions C05_compression_rejected.
 
@@ -198,16 +198,16 @@ Example C05_nonvacuous :
   let F := [[1; -2]; []; [2; 2; -2]] in
   lits_in_range 3 F = true /\
   xor_substitution 3 2 [[1; -2]] =
-    SOk (6, [[1; 2; 3; -4]; [1; 2; -3; 4]; [-1; -2; 3; -4]; [-1; -2; -3; 4]]) /\
+    TOk (6, [[1; 2; 3; -4]; [1; 2; -3; 4]; [-1; -2; 3; -4]; [-1; -2; -3; 4]]) /\
   match xor_substitution 3 2 F with
-  | SOk (n, out) => n = 6 /\ length out = 13%nat /\ nth 4 out [0] = []
-  | SValueErr => False
+  | TOk (n, out) => n = 6 /\ length out = 13%nat /\ nth 4 out [0] = []
+  | TValueErr => False
   end /\
   cnf_sat (fun v => v =? 1) (apply_subst [[1; -2]] (xorify 2)) = true /\
   cnf_sat (fun v => (v =? 1) || (v =? 3)) (apply_subst [[-1; -2]] (xorify 2)) = false /\
-  formula_lifting 1 2 [[1]] = SOk (4, [[-3; -4]; [3; 4]; [-3; 1]; [-4; 2]]) /\
+  formula_lifting 1 2 [[1]] = TOk (4, [[-3; -4]; [3; 4]; [-3; 1]; [-4; 2]]) /\
   selectors_ok 1 2 (fun v => v =? 3) = true /\
   variable_compression 2 [[1; -2]] 3 [[1; 2]; [2; 3]] CompXor =
-    SOk (3, [[1; 2; 2; -3]; [1; 2; -2; 3]; [-1; -2; 2; -3]; [-1; -2; -2; 3]]) /\
+    TOk (3, [[1; 2; 2; -3]; [1; 2; -2; 3]; [-1; -2; 2; -3]; [-1; -2; -2; 3]]) /\
   adj_ok 3 [[1; 2]; [2; 3]] = true.
 Proof. vm_compute. repeat split. Qed.
